@@ -9,6 +9,11 @@ R03c  every removal from UserDefinedDataWriter::matched_subscription_list is acc
       function or in every caller chain up to depth 3) by delete_matched_reader on the RTPS writer and
       by a re-evaluation of the waiters (is_change_acknowledged + send) — otherwise a waiter blocked only
       on the departed reader never completes
+R03g  every GAP the writer side builds announces a non-empty range that contains its start (gap_list base = last irrelevant
+      number + 1, sibling sites agree): an empty GAP is ignored by the reader, which then requests the same number for ever
+      and the acknowledgment never arrives after the network heals                                   (shared with C01 R01h)
+R05g  a fragment is buffered at most once (shared with C05): completeness is decided by counting, so a duplicate plus a loss
+      would acknowledge a sample the reader never held
 The time bound after healing is not decided.
 """
 from vplib import expr as E
@@ -214,6 +219,11 @@ def run(ctx, rep):
     rep.floor("R01d", na, 4, "ACKNACK handler state updates (acknowledged = base - 1)")
     ng = R.periodic_heartbeat_solicits_ack(fx, rep, "R03e")
     rep.floor("R03e", ng, 3, "periodic heartbeat + reader must_send_acknacks sites")
+    ngap = R.gap_ranges_nonempty(fx, rep, "R03g")
+    rep.floor("R03g", ngap, 6, "GAP constructions on the writer side")
+    from rules.c05 import no_duplicate_fragments
+    ndup = no_duplicate_fragments(fx, rep)
+    rep.floor("R05g", ndup, 1, "pushes into RtpsWriterProxy::frag_buffer")
     sites = removal_sites(fx, "UserDefinedDataWriter", "matched_subscription_list")
     rep.floor("R03c", len(sites), 1, "removals from matched_subscription_list")
     for b, bb, t in sites:
